@@ -22,7 +22,7 @@ def anns(line):
 
 
 DEF_OPS = {"sink", "sink_co", "csink", "const", "never", "map", "map_to", "filter", "filter_opt", "merge", "or_else", "snapshot",
-           "snapshot1", "gate", "once", "hold", "hold_lazy", "updates", "value", "map_c", "lift", "accum", "accum_lazy", "collect",
+           "snapshot1", "map_s", "map_sl", "gate", "once", "hold", "hold_lazy", "updates", "value", "map_c", "lift", "accum", "accum_lazy", "collect",
            "collect_lazy", "switch_s", "switch_c", "sloop", "cloop", "defer", "split", "router", "route"}
 
 
@@ -238,7 +238,7 @@ class C02(FrpProp):
 
 W_ALL = dict(map=8, filter=4, merge=8, or_else=3, snapshot=6, gate=3, once=2, hold=8, updates=3, value=3,
              map_c=6, lift=6, accum=4, collect=3, filter_opt=2, map_to=2, snapshot1=2, const=2, never=1, csink=3,
-             sink=4, sink_co=2)
+             sink=4, sink_co=2, map_s=1, map_sl=1)
 
 
 def W(**kw):
@@ -261,10 +261,10 @@ class C01(FrpProp):
 
 class C04(FrpProp):
     pid = "C04"
-    level_text = 'Theorems over the specification for ALL histories: every read during a transaction sees the pre-transaction value (sends do not change cur; sample position irrelevant); hold commits the event as next value with or without listeners and equals the last event so far; accum and collect, built exactly as the library builds them (loop + hold + snapshot), equal the left fold of the function over the whole event history with one update per input event; a cell created after its source fired takes that event. Refine_* : the engine computes the specified updates on the static fragment. Tie: spec correspondence with samples at random positions, lazies shared between cells, long histories.'
+    level_text = 'Theorems over the specification for ALL histories: every read during a transaction sees the pre-transaction value (sends do not change cur; sample position irrelevant); hold commits the event as next value with or without listeners and equals the last event so far; accum and collect, built exactly as the library builds them (loop + hold + snapshot), equal the left fold of the function over the whole event history with one update per input event; a cell created after its source fired takes that event. Refine_* : the engine computes the specified updates on the static fragment. Tie: spec correspondence with samples at random positions, reads from inside user functions during propagation (map_s/map_sl: a map whose function samples a cell strictly or through a Lazy, specified as the snapshot), lazies shared between cells, long histories.'
     extra_props = ["Refine"]
     tag = "c04"
-    profile = Profile(w=W(hold=12, accum=8, collect=6, snapshot=10, csink=5, hold_lazy=5, accum_lazy=4, gate=4),
+    profile = Profile(w=W(hold=12, accum=8, collect=6, snapshot=10, csink=5, hold_lazy=5, accum_lazy=4, gate=4, map_s=6, map_sl=6),
                       p_sample=0.7, p_def_in_txn=0.25, n_txn=(5, 20), p_listen_late=0.2, p_lazy=0.25)
 
 
@@ -415,7 +415,7 @@ class C17(FrpProp):
         return thunk_runs_oracle(lines, out)
     level_text = "Theorems: operational model of lazy.rs (shared thunk/value cells): for any interleaving of new/clone/run the thunk is evaluated at most once and every run through every clone returns the same value; specification: a lazy taken by sample_lazy in transaction T denotes cur of the cell as of T however many transactions later it is forced, through clones, and hold_lazy starts from that value. The former known finding K3 (switch_c's initial thunk) has been repaired in /repo; its class predicate is kept, unlisted."
     tag = "c17"
-    profile = Profile(w=W(hold_lazy=6, accum_lazy=4, map_c=8, lift=8, cloop=3, hold=6, switch_c=1), p_lazy=0.7, p_sample=0.3,
+    profile = Profile(w=W(hold_lazy=6, accum_lazy=4, map_c=8, lift=8, cloop=3, hold=6, switch_c=1, map_sl=4), p_lazy=0.7, p_sample=0.3,
                       n_txn=(4, 14))
 
 
@@ -426,7 +426,7 @@ class C18(FrpProp):
     profile = Profile(w=W(router=12, filter=6), p_mem=0.2, p_def_in_txn=0.2, n_txn=(4, 12))
 
 
-HEAP_PROFILE = Profile(w=W(once=0, sloop=4, cloop=4, accum=5, collect=4, defer=3, split=3, gate=4, value=4, updates=4, lift=8,
+HEAP_PROFILE = Profile(w=W(once=0, map_s=0, map_sl=0, sloop=4, cloop=4, accum=5, collect=4, defer=3, split=3, gate=4, value=4, updates=4, lift=8,
                            map_c=6), p_mem=0.5, p_unlisten=0.3, weak=0.3, final_teardown=True, n_defs=(4, 12), n_txn=(3, 8),
                        p_sample=0.1)
 _HROW = re.compile(r"^(\d+):(.*):(\d):(\d+):(\d+):([\d.]*)$")
@@ -549,7 +549,12 @@ class C06(GcBacked):
                   "panic or fuel exhaustion occurs. The hypothesis - the contract 'count = handles + reported edges' - is not proved for "
                   "the FRP primitives but MEASURED on the real heap after every collection by the harness's audit (all reachable nodes, real "
                   "tracers); observational transparency of clone/drop/gc is the specification correspondence. Rust ownership of Arc "
-                  "payloads is modelled, not verified.")
+                  "payloads is modelled, not verified. FRP level (Model/Heap.v, Proofs/HeapFacts.v): every primitive of the static fragment "
+                  "is compiled to collector-model operations (what it allocates, which counted+traced references it acquires, which handles "
+                  "it keeps); theorems for EVERY program of the fragment: no abort and WF at every step, the collector's handle counts equal "
+                  "what the program's slots and listeners hold, and nothing reachable from a held slot/listener/keep-alive is ever freed. "
+                  "Tie: the heap model's reachable heap equals the real heap object by object (id, constructor, count, handles, multiset of "
+                  "traced edges, live-node count) at every audited line of generated programs.")
 
     def extra_oracle(self, lines, out):
         return audit_oracle(lines, out)
@@ -603,7 +608,12 @@ class C07(GcBacked):
                   "buffer is empty. The hypothesis (contract) is measured on the real heap by the audit after every collection; the "
                   "end-of-script teardown (drop every handle, unlisten, empty transaction, collect) must leave node_count = 0 on the real "
                   "library. Leaks through references no tracer reports are exactly what these two detectors find (known finding K5 is "
-                  "classified by a computable predicate; K1 and K3 have been repaired in /repo).")
+                  "classified by a computable predicate; K1 and K3 have been repaired in /repo). FRP level (Model/Heap.v, Proofs/HeapFacts.v): every "
+                  "primitive of the static fragment (sinks, map/filter/merge/snapshot/gate, hold, updates, value, map_c, lift2..6, accum, "
+                  "collect, defer, split, loops, strong/weak/cell listeners, clone/drop/unlisten) is compiled to collector-model operations; "
+                  "theorem C07_program_teardown_frees_all: for EVERY program of the fragment, after it releases what it holds one collection "
+                  "frees every object it ever allocated. Tie: the heap model's reachable heap equals the real heap object by object (id, "
+                  "constructor, count, handles, multiset of traced edges, live-node count) at every audited line of generated programs.")
 
     def extra_oracle(self, lines, out):
         a = audit_oracle(lines, out)
